@@ -15,6 +15,7 @@ from sim.core import EndRun, canon, derive, np_seed
 from sim.models import election as M
 
 PROP = "C12"
+FORKS = True      # snapshot / restore events (core.Ctx.maybe_fork)
 LEVEL = "exploration"
 RULE = (
     "StreamingEnsemble / BatchEnsemble over 2-5 real members drawn from {ADWIN, PageHinkley, CUSUM, DDM, EDDM, STEPD, "
@@ -45,6 +46,11 @@ class Seeded:
 
     def _seed(self):
         np.random.seed(derive(self._c[0], self._k) % (2**32 - 1))
+
+    def __deepcopy__(self, memo):
+        import copy
+
+        return Seeded(copy.deepcopy(self._i, memo), self._k, self._c)     # (the simulator's clock is not part of the snapshot)
 
     def update(self, *a, **k):
         self._seed()
@@ -195,6 +201,11 @@ def run(case, ctx):
     first_alarm = {}
     for i, ev in enumerate(case["events"]):
         ctx.step = i
+        restored = ctx.maybe_fork(ens)          # the coordinator and all its members are snapshotted and restored together
+        if restored is not ens:
+            ens = restored
+            for k in keys:
+                real[k] = ens.detectors[k]._i
         clock[0] = ev[-1] if ev[0] not in ("r", "swap") else 0
         if ev[0] == "swap":
             key, nme, mcfg = case["members"][ev[1] % len(case["members"])]
